@@ -2,16 +2,24 @@
 oracle: random sequences (<= 10) of read-only operations on generated scenarios and on scenarios obtained by
         reading a written XML / protobuf file; after every operation, and after each of the two exports that follow
         it, the structural snapshot (raw stored data, caches excluded, attribute sets of states, dict key sets,
-        container types) is compared with the one taken before the sequence, the exported XML and protobuf
-        bytes (date aside) with the first export, and the answer of a lanelet lookup with the first answer.  The snapshot code is the harness's own (reads instance
-        dictionaries and slots only), so whatever changes is attributed to the operation that ran last.
+        container types; numpy arrays by value and dtype, also the arrays inside shapes that serve as uncertain
+        positions) is compared with the one taken before the sequence, the exported XML and protobuf bytes (date
+        aside) with the first export, and the answer of a lanelet lookup with the first answer.  The snapshot code is
+        the harness's own (reads instance dictionaries and slots only), so whatever changes is attributed to the
+        operation that ran last.  Scenarios ("wide": 1) also hold obstacles with uncertain states (position regions of
+        every shape kind, orientation intervals; float and integer coordinates) and shapes whose reference point is
+        off the centre, and several intersections with several incoming elements and crossings; drawing uses any
+        setting of the boolean flags of the draw-parameter tree (read off MPDrawParams), time windows, parameters
+        given to the renderer, per call, or part by part.
 corr:   the code version ([code] of Model/ReadOnly.v: heading derived on a copy? goal-lanelet table tested before
         indexing?) is read off the syntax trees of the two anchored functions on every run (fail-closed: anything
         but the repaired version breaks the obligation the theorems rest on);
         Model/ReadOnly.v run by vm_compute on the same sequences predicts, after every step, the attribute-name
-        lists of all trajectory states, every goal-lanelet table (container kind + items), and which caches /
-        lazily filled fields exist with which contents (occupancy sets, lanelet distances, spatial index, memoised
-        light-cycle times); compared inside Coq with what is read off the real objects (Corr/C18.v)."""
+        lists and the stored values (digest) of all trajectory states, the other stored data of every obstacle
+        (digest), the id sets of every intersection and incoming element, every goal-lanelet table (container kind +
+        items), and which caches / lazily filled fields exist with which contents (occupancy sets, lanelet distances,
+        spatial index, memoised light-cycle times); compared inside Coq with what is read off the real objects
+        (Corr/C18.v)."""
 import ast
 import atexit
 import contextlib
@@ -57,14 +65,23 @@ RULE = ("cases = (scenario seed, source in {generated, read back from XML, read 
         "id, obstacles_by_position_intervals, lanelet distance / inner_distance / polygon / interpolate / contains / "
         "get_obstacles, traffic-light state, is_reached / goal_reached (random states and the scenario's own states and "
         "trajectories), == and != on scenario, planning problems and parts, hash of every part (TypeError guarded), "
-        "str / repr, copy.copy, copy.deepcopy, pickle dumps+loads, draw + render (MPRenderer, Agg), XML write, protobuf "
-        "write; every op is followed by an XML and a protobuf export.  Scenarios contain the four obstacle roles, "
-        "trajectories of KS / PM / ST / custom states incl. custom states with velocity + velocity_y and no orientation "
-        "(and, rarely, with neither), goal regions with partial lanelet tables.  distinct = distinct case dicts; "
+        "str / repr, copy.copy, copy.deepcopy, pickle dumps+loads, draw + render (MPRenderer, Agg; draw parameters = "
+        "the defaults with any subset of the boolean flags of the MPDrawParams tree negated: none / a few / all on / "
+        "random half / all negated / one section on; time window 0-5 + 0-12; parameters given to the renderer, with "
+        "every draw call, or the parts drawn one by one), XML write, protobuf write; every op is followed by an XML and "
+        "a protobuf export.  Scenarios contain the four obstacle roles, trajectories of KS / PM / ST / custom states "
+        "incl. custom states with velocity + velocity_y and no orientation (and, rarely, with neither), goal regions "
+        "with partial lanelet tables; cases with wide=1 (all generated ones) add 0-2 intersections with 1-3 incoming "
+        "elements each (successors right / straight / left, crossings, left_of) and 0-2 obstacles with uncertain initial "
+        "and trajectory states (position = Rectangle / Circle / Polygon region, orientation = AngleInterval, velocity "
+        "interval; float coordinates, 15 % integer arrays) and an obstacle shape off its reference point (Rectangle / "
+        "Circle with centre != 0, polygon referenced at the rear axle, random polygon, ShapeGroup).  "
+        "distinct = distinct case dicts; "
         "non-trivial = the sequence contains an occupancy query, a lanelet / light query, a copy or a draw")
 ASSUME = ["observe = structural snapshot of every stored attribute reachable from the scenario and the planning "
-          "problem set (instance dictionaries and slots, recursively; numpy arrays by value and dtype; container types "
-          "and dict key sets), except the cache fields (occupancy_set, _initial_occupancy_shape, lanelet _polygon / "
+          "problem set (instance dictionaries and slots, recursively; numpy arrays by value and dtype, including the "
+          "centre / vertex arrays of shapes stored as uncertain positions; container types and dict key sets), except "
+          "the cache fields (occupancy_set, _initial_occupancy_shape, lanelet _polygon / "
           "_distance / _inner_distance, network _buffered_polygons / _strtee / _lanelet_id_index_by_id, "
           "_cycle_init_timesteps, shape vertices / shapely objects), plus exported XML and protobuf bytes with the date "
           "removed",
@@ -72,8 +89,12 @@ ASSUME = ["observe = structural snapshot of every stored attribute reachable fro
           "comparison is made all the same",
           "each export uses a new writer object with the same arguments (C15 judges writer reuse)",
           "Coq model: which occupancy sets / lanelet distances / light cycles the renderer asks for is an oracle input of "
-          "the Draw operation (read off the real objects); shape-level caches (Rectangle._vertices, shapely objects) "
-          "and numeric contents of occupancies / distances are outside the model"]
+          "the Draw operation (read off the real objects), as is the draw_intersections flag; stored values enter the "
+          "model as digests (one number per trajectory state and per obstacle), the id sets of intersections as sorted "
+          "lists; shape-level caches (Rectangle._vertices, shapely objects) and numeric contents of occupancies / "
+          "distances are outside the model",
+          "draw parameters: boolean flags and the time window only (colours, line widths, zorder etc. keep their "
+          "defaults); a flag set on a node is passed on to the nodes below by the library itself"]
 
 # cache fields by (class name, attribute) or attribute alone
 SKIP = set(scen.CACHE_FIELDS) | {"_Rectangle__shapely_polygon", "_shapely_circle"}
@@ -805,6 +826,11 @@ def classify(path):
     return ".".join(tail[-2:]) if tail else "?"
 
 
+def _short(x, n=260):
+    t = str(x)
+    return t if len(t) <= n else t[:n] + " ...]"
+
+
 def run_case(case, workdir, want_model=False):
     """returns (None | (signature, what), trace); trace = (initial model state, [(op terms, raised, model state)])"""
     sc, pps = make(case, workdir)
@@ -821,7 +847,7 @@ def run_case(case, workdir, want_model=False):
         d = first_diff(s0, [snapshot(sc), snapshot(pps)])
         if d:
             return (f"{opname}:{src}:{classify(d)}",
-                    f"step {i} {opdesc} on a scenario (seed {case['seed']}, {src}) changed stored data: {d[:200]}"
+                    f"step {i} {_short(opdesc)} on a scenario (seed {case['seed']}, {src}) changed stored data: {d[:200]}"
                     + (f" (the operation raised {exc})" if exc else ""))
         return None
 
@@ -836,7 +862,7 @@ def run_case(case, workdir, want_model=False):
                 first[fmt] = e
             elif e != first[fmt]:
                 return (f"{opdesc[0] if isinstance(opdesc, list) else 'export'}:{src}:export-{fmt}",
-                        f"step {i} {opdesc} on a scenario (seed {case['seed']}, {src}): the exported {fmt} file "
+                        f"step {i} {_short(opdesc)} on a scenario (seed {case['seed']}, {src}): the exported {fmt} file "
                         f"differs from the export before the sequence ({first[fmt]} -> {e})")
         return None
 
@@ -859,7 +885,7 @@ def run_case(case, workdir, want_model=False):
         r = changed(op[0], i, op, excs[0] if excs else None)
         if not r and probe() != p0:
             r = (f"{op[0]}:{src}:lookup-answer",
-                 f"step {i} {op} on a scenario (seed {case['seed']}, {src}): find_lanelet_by_position answered {p0} "
+                 f"step {i} {_short(op)} on a scenario (seed {case['seed']}, {src}): find_lanelet_by_position answered {p0} "
                  f"before the sequence and {probe()} after this operation")
         r = r or exports(i, op)
         if r:
